@@ -58,6 +58,7 @@ static CaseResult run_case(Tape &t)
 	if (R.n_red_lastfrag) r.cls("repeat-of-last-fragment");
 	for (auto &pp : R.peers) if (pp->F > 1200) { r.cls("fragment-size>1200"); break; }
 	if (R.n_red_cache) r.cls("repeat-in-cache-window");
+	if (R.n_red_after_lower) r.cls("repeat-of-an-answer-forgotten-when-the-size-was-lowered");
 	if (R.n_red_qmem) r.cls("repeat-in-qmem-window");
 	if (R.n_red_pending) r.cls("repeat-of-pending");
 	if (R.n_red_case) r.cls("case-changed");
